@@ -1,6 +1,7 @@
 package ot
 
 import (
+	"errors"
 	"github.com/taurusgroup/multi-party-sig/pkg/hash"
 	"github.com/taurusgroup/multi-party-sig/pkg/math/curve"
 	"github.com/taurusgroup/multi-party-sig/pkg/math/sample"
@@ -50,6 +51,9 @@ func NewAdditiveOTSender(ctxHash *hash.Hash, setup *CorreOTSendSetup, batchSize 
 }
 
 func (r *AdditiveOTSender) Round1(msg *AdditiveOTReceiveRound1Message) (*AdditiveOTSendRound1Message, AdditiveOTSendResult, error) {
+	if msg == nil || msg.Msg == nil {
+		return nil, nil, errors.New("AdditiveOTSender Round1: missing message")
+	}
 	extendedResult, err := ExtendedOTSend(r.ctxHash, r.setup, r.batchSize, msg.Msg)
 	if err != nil {
 		return nil, nil, err
@@ -133,6 +137,9 @@ type AdditiveOTReceiveResult [][2]curve.Scalar
 // Round2 executes the Receiver's second round of an Additive OT.
 func (r *AdditiveOTReceiver) Round2(msg *AdditiveOTSendRound1Message) (AdditiveOTReceiveResult, error) {
 	batchSize := 8 * len(r.choices)
+	if msg == nil || len(msg.CombinedPads) != batchSize {
+		return nil, errors.New("AdditiveOTReceiver Round2: wrong number of pads")
+	}
 	result := make([][2]curve.Scalar, batchSize)
 	prg := blake3.New()
 	for i := 0; i < batchSize; i++ {
